@@ -208,7 +208,7 @@ theorem cnfMSP_accepts (sets : List (List ℕ)) (S : List ℕ) (hne : cnfNormali
     (cnfMSP (F := F) sets).accepts S = decide (∀ u ∈ cnfNormalise sets, ∃ id ∈ S, id ∉ u) := by
   set mus := cnfNormalise sets with hmus
   set hs := sortedSet mus.flatten with hhs
-  set sorted := mus.mergeSort (fun a b => decide (idMask a ≤ idMask b)) with hsorted
+  set sorted := mus.mergeSort cnfSetLe with hsorted
   set m := sorted.length with hm
   have hperm : sorted.Perm mus := List.mergeSort_perm _ _
   have hmpos : 0 < m := by
